@@ -234,6 +234,13 @@ def gen_common(rng):
     r = rng.random()
     c["ind"] = [_r(rng, 5, 30, 2) for _ in range(n)]
     c["cov"] = rng.choice([0.0, _r(rng, 1, 10, 2)])
+    # how the caller writes the independent errors: float array, or whole numbers as a plain list / integer array
+    # (the covariant error then still has its fractional part)
+    c["ind_form"] = "float"
+    if rng.random() < 0.3:
+        c["ind"] = [int(rng.randint(5, 30)) for _ in range(n)]
+        c["ind_form"] = rng.choice(["int_list", "int_array"])
+        c["cov"] = rng.choice([_r(rng, 1, 10, 2), rng.uniform(0.2, 0.95), 2.5])
     c["supplied"] = None
     if r < 0.25:
         a = np.array([[rng.uniform(-3, 3) for _ in range(n)] for _ in range(n)])
@@ -364,6 +371,14 @@ def _arr(x):
     return None if x is None else np.array(x, dtype=float)
 
 
+def _ind(case):
+    form = case.get("ind_form", "float")
+    if case["ind"] is None or form == "float":
+        return _arr(case["ind"])
+    ints = [int(v) for v in case["ind"]]
+    return ints if form == "int_list" else np.array(ints)
+
+
 def build(case):
     """construct the (stubbed-engine) object from the case; returns the instance"""
     K = _cls(case["kind"])
@@ -372,7 +387,7 @@ def build(case):
               r_eff=case["r_eff"], r_eff_error=case["r_eff_error"],
               sigma_v_measured=list(case["sigma_v"]), kwargs_aperture={}, kwargs_seeing={},
               kwargs_numerics_galkin={}, anisotropy_model=case["ani"],
-              sigma_v_error_independent=_arr(case["ind"]), sigma_v_error_covariant=case["cov"],
+              sigma_v_error_independent=_ind(case), sigma_v_error_covariant=case["cov"],
               sigma_v_error_cov_matrix=_arr(case["supplied"]))
     if case["family"] == "pl":
         kw["kwargs_lens_light"] = None if case["light"] is None else [dict(d) for d in case["light"]]
